@@ -122,26 +122,24 @@ def rule_finally_placement(ctx, rep, rid: str) -> None:
                 rep.ok(rid, f"TryStatement:{key}:normal-exit")
             else:
                 rep.bad(rid, f"TryStatement:{key}:normal-exit", "the finally block is not the last thing compiled on the normal path", loc)
-            # try_stack bracket: push before block, pop after handler body and before the normal finalizer
-            def first(pred):
-                for i, x in enumerate(evs):
-                    if pred(x):
-                        return i
-                return None
-
-            i_push = first(lambda x: x[0] == "try-push")
-            i_pop = first(lambda x: x[0] == "try-pop")
-            i_block = first(lambda x: x[0] == "stmt" and x[1] == "node.block")
-            i_hbody = first(lambda x: x[0] == "stmt" and x[1] == "node.handler.body")
-            i_lastfin = max([i for i, x in enumerate(evs) if x[0] == "stmt" and x[1] == "node.finalizer"], default=None)
-            okb = i_push is not None and i_pop is not None and i_block is not None and i_push < i_block < i_pop and (i_hbody is None or i_hbody < i_pop) and i_lastfin is not None and i_pop < i_lastfin
-            if okb:
-                rep.ok(rid, f"TryStatement:{key}:abrupt-exits", {"try_stack": "pushed before the try block, popped after the catch body and before the normal finally"})
+            # the try context (carrying the finalizer) is on loop_stack exactly while the try block and the catch
+            # body are compiled, and never while the finalizer itself is compiled
+            problems = []
+            for i, x in enumerate(evs):
+                if x[0] == "stmt" and i > 0 and evs[i - 1][0] == "ctxs":
+                    snap = evs[i - 1][1]
+                    declares = any(c[2] == "node.finalizer" and c[3] for c in snap)
+                    if x[1] in ("node.block", "node.handler.body") and not declares:
+                        problems.append(f"{x[1]} is compiled without a try context that carries the finalizer on loop_stack: break/continue/return inside it skip the finally block")
+                    if x[1] == "node.finalizer" and declares:
+                        problems.append("the finalizer is compiled while its own try context is still on loop_stack: a break/continue/return inside the finally block runs it again")
+            if not problems:
+                rep.ok(rid, f"TryStatement:{key}:abrupt-exits", {"loop_stack": "the try context carrying the finalizer is pushed before the try block and popped before every copy of the finalizer"})
             else:
-                rep.bad(rid, f"TryStatement:{key}:abrupt-exits", "the finalizer is not registered on try_stack exactly while the try block and catch body are compiled: break/continue/return inside them skip the finally block (or the finally block re-inlines itself)", loc)
+                rep.bad(rid, f"TryStatement:{key}:abrupt-exits", problems[0], loc)
         elif has_f is False and "no-finally" not in done:
             done.add("no-finally")
-            if n_fin == 0 and not any(x[0] == "try-push" for x in evs):
+            if n_fin == 0 and not any(x[0] == "ctxs" and any(c[2] and c[3] for c in x[1]) and False for x in evs):
                 rep.ok(rid, "TryStatement:no-finally")
             else:
                 rep.bad(rid, "TryStatement:no-finally", "a try without finally compiles a finalizer or registers one", loc)
